@@ -16,13 +16,16 @@ struct Exchange {
     forbid: Option<(usize, usize)>,
     /// the response body is close-delimited: the caller reads until the connection has ended
     close: bool,
+    /// the request carries Expect: 100-continue (the stream then starts with an interim 100)
+    expect: bool,
+    body_method: bool,
 }
 
 fn gen_exchange(r: &mut Rng) -> Exchange {
     let body_method = r.chance(1, 2);
     let method = if body_method { *r.pick(&["POST", "PUT", "PATCH"]) } else { *r.pick(&["GET", "HEAD", "DELETE", "OPTIONS"]) };
     let version = if matches!(method, "GET" | "HEAD" | "POST") && r.chance(1, 4) { "HTTP/1.0" } else { "HTTP/1.1" };
-    let payload: Vec<u8> = (0..if body_method { r.range(0, 300) } else { 0 }).map(|i| (i * 7 % 251) as u8).collect();
+    let payload: Vec<u8> = (0..if body_method && !r.chance(1, 6) { r.range(0, 300) } else { 0 }).map(|i| (i * 7 % 251) as u8).collect();
     let mut hs: Vec<(String, Vec<u8>)> = vec![("x-trace".into(), b"abc".to_vec())];
     let expect = body_method && r.chance(1, 2);
     if body_method && r.chance(1, 2) { hs.push(("content-length".into(), payload.len().to_string().into_bytes())); }
@@ -41,7 +44,7 @@ fn gen_exchange(r: &mut Rng) -> Exchange {
     let head_start = stream.len();
     let mut head = format!("{} {} Reason\r\nX-One: 1\r\n", rv, status).into_bytes();
     if r.chance(1, 5) { head.extend_from_slice(b"Connection: close\r\n"); }
-    let body: Vec<u8> = (0..r.range(0, 120)).map(|_| *r.pick(b"ab\r\n0;xHTTP/1. ")).collect();
+    let body: Vec<u8> = (0..if r.chance(1, 6) { 0 } else { r.range(0, 120) }).map(|_| *r.pick(b"ab\r\n0;xHTTP/1. ")).collect();
     // 0/2: Content-Length, 1: chunked (HTTP/1.1), 3: no framing at all = close-delimited (then nothing follows)
     let framing = r.below(4);
     // a redirect without any framing field has no body (body.rs: is_redirect && !has_body_header)
@@ -74,7 +77,7 @@ fn gen_exchange(r: &mut Rng) -> Exchange {
     if !no_body { stream.extend_from_slice(&coded); }
     let msglen = stream.len();
     if !close_delimited { stream.extend_from_slice(NEXT); }
-    Exchange { req, payload, stream, msglen, forbid, close: close_delimited }
+    Exchange { req, payload, stream, msglen, forbid, close: close_delimited, expect, body_method }
 }
 
 fn adjust(ex: &Exchange, p: usize) -> usize {
@@ -150,6 +153,8 @@ fn run_schedule(cx: &mut Ctx, ex: &Exchange, r: &mut Rng, mode: usize) {
             "recvBody" => {
                 if r.chance(1, 6) { cx.op("boundary"); }
                 if r.chance(1, 8) { cx.op("mode"); }
+                // a poll that came up empty: a read with nothing to offer changes nothing
+                if mode != 0 && r.chance(1, 4) { let cap = cap_of(r); cx.op(&format!("bread - {}", cap)); }
                 if cx.op("canproceed") == "bool true" && arrived >= ex.msglen && (!ex.close || soff >= ex.msglen) { cx.op("proceed"); continue; }
                 let cap = cap_of(r);
                 let res = cx.op(&format!("bread {} {}", hx(&ex.stream[soff..arrived.max(soff)]), cap));
@@ -169,6 +174,79 @@ fn run_schedule(cx: &mut Ctx, ex: &Exchange, r: &mut Rng, mode: usize) {
             "redirect" => { cx.op("status"); cx.op("close?"); cx.op("reason"); cx.op("proceed"); }
             "cleanup" => { cx.op("close?"); cx.op("reason"); break; }
             _ => break,
+        }
+    }
+    cx.meta(&format!("consumed {}", soff));
+}
+
+/// the same exchange through the single-call API (`Call`): write until finished, into_receive, try_response
+/// until a response, into_body, read until ended — under the same kinds of schedules
+fn run_call_schedule(cx: &mut Ctx, ex: &Exchange, r: &mut Rng, mode: usize) {
+    let kind = if ex.body_method { "body" } else { "nobody" };
+    if cx.rec.new_call(kind, &ex.req) != "ok" { return; }
+    let cap_of = |r: &mut Rng| -> usize { match mode { 0 => 100000, 1 => 1 + r.below(8), 2 => *r.pick(&[5usize, 6, 7, 16, 30, 64]), 3 => r.range(1, 300), _ => *r.pick(&[1usize, 2, 3, 20, 100000]) } };
+    let step_of = |r: &mut Rng| -> usize { match mode { 0 => 100000, 1 => 1, 2 => 1 + r.below(4), 3 => r.range(1, 60), _ => *r.pick(&[1usize, 2, 7, 100000]) } };
+    // send
+    let mut boff = 0usize;
+    let mut guard = 0;
+    let mut idle = 0;
+    loop {
+        guard += 1;
+        if guard > 3000 || idle > 200 { return; }
+        if cx.op("cfinished") == "bool true" { break; }
+        let cap = { let c = cap_of(r); if c < 40 && r.chance(1, 2) { c + 40 } else { c } };
+        let res = if ex.body_method {
+            let upto = (boff + step_of(r).max(1)).min(ex.payload.len());
+            cx.op(&format!("cbwrite {} {}", hx(&ex.payload[boff..upto]), cap.max(6)))
+        } else {
+            cx.op(&format!("cwrite {}", cap))
+        };
+        let p: Vec<&str> = res.split(' ').collect();
+        if p[0] == "bytes" {
+            let n = p[1].parse::<usize>().unwrap_or(0);
+            boff += n;
+            if n == 0 && p[2] == "-" { idle += 1; } else { idle = 0; }
+        } else if res.contains("OutputOverflow") { idle += 1; } else { return; }
+    }
+    if cx.op("cinto") != "state callRecvResponse" { return; }
+    // receive
+    let mut arrived = 0usize;
+    let mut soff = 0usize;
+    guard = 0;
+    loop {
+        guard += 1;
+        if guard > 3000 { return; }
+        let res = cx.op(&format!("cresp {}", hx(&ex.stream[soff..arrived.max(soff)])));
+        let p: Vec<&str> = res.split(' ').collect();
+        if p[0] != "resp" { return; }
+        let n: usize = p[1].parse().unwrap_or(0);
+        soff += n;
+        if p[2] != "none" { break; }
+        if n == 0 {
+            if arrived >= ex.stream.len() { return; }
+            arrived = adjust(ex, (arrived.max(soff) + step_of(r)).min(ex.stream.len()));
+        }
+    }
+    cx.op("cfinished");
+    let b = cx.op("cbody");
+    if b == "state callRecvBody" {
+        guard = 0;
+        loop {
+            guard += 1;
+            if guard > 3000 { break; }
+            let ended = cx.op("cended") == "bool true";
+            if ended && (!ex.close || soff >= ex.msglen) { break; }
+            if ex.close && soff >= ex.msglen && arrived >= ex.stream.len() { break; }
+            let cap = cap_of(r);
+            let res = cx.op(&format!("cread {} {}", hx(&ex.stream[soff..arrived.max(soff)]), cap));
+            let p: Vec<&str> = res.split(' ').collect();
+            if p[0] != "bytes" { break; }
+            let n: usize = p[1].parse().unwrap_or(0);
+            soff += n;
+            if n == 0 && p[2] == "-" {
+                if arrived >= ex.stream.len() { break; }
+                arrived = (arrived.max(soff) + step_of(r)).min(ex.stream.len());
+            }
         }
     }
     cx.meta(&format!("consumed {}", soff));
@@ -226,7 +304,7 @@ fn refusal_exchange(r: &mut Rng) -> Exchange {
     // a bare non-1xx status line leaves the body close-delimited: then nothing follows
     let close = bare && status != 101;
     if !close { stream.extend_from_slice(NEXT); }
-    Exchange { req, payload, stream, msglen, forbid: None, close }
+    Exchange { req, payload, stream, msglen, forbid: None, close, expect: true, body_method: true }
 }
 
 pub fn c01(cx: &mut Ctx) {
@@ -240,6 +318,19 @@ pub fn c01(cx: &mut Ctx) {
         cx.meta(&format!("payload {}", hx(&ex.payload)));
         run_xrun(cx, &ex, &mut r, k % 4);
     }
+    // a close-delimited response whose body is empty (the server closes right after the head): some schedules
+    // never read, some poll once with nothing to offer — the outcome, verdict included, is the same
+    for (k, head) in ["HTTP/1.1 200 OK\r\nX-One: 1\r\n\r\n", "HTTP/1.0 200 OK\r\n\r\n", "HTTP/1.1 404 Nope\r\nX: y\r\n\r\n"].iter().enumerate() {
+        let ex = Exchange { req: "GET HTTP/1.1 http://a.test/path?q=1 1 x-trace 616263".into(), payload: vec![], stream: head.as_bytes().to_vec(),
+                            msglen: head.len(), forbid: None, close: true, expect: false, body_method: false };
+        for s in 0..schedules {
+            let mut r = cx.case("xe");
+            cx.meta(&format!("group e{}", k));
+            cx.meta(&format!("msglen {}", ex.msglen));
+            cx.meta("payload -");
+            run_schedule(cx, &ex, &mut r, s % 5);
+        }
+    }
     for g in 0..groups {
         let mut r0 = Rng::for_case(cx.seed ^ 0x5151, g as u64);
         let ex = gen_exchange(&mut r0);
@@ -249,6 +340,17 @@ pub fn c01(cx: &mut Ctx) {
             cx.meta(&format!("msglen {}", ex.msglen));
             cx.meta(&format!("payload {}", hx(&ex.payload)));
             run_schedule(cx, &ex, &mut r, s % 5);
+        }
+        // the single-call API: requests without Expect (Call has no Await100 state), all five schedule shapes
+        if !ex.expect {
+            for s in 0..5 {
+                let mut r = cx.case("xc");
+                cx.meta(&format!("group c{}", g));
+                cx.meta(&format!("msglen {}", ex.msglen));
+                cx.meta(&format!("payload {}", hx(&ex.payload)));
+                cx.meta("callapi");
+                run_call_schedule(cx, &ex, &mut r, if ex.forbid.is_some() { 0 } else { s });
+            }
         }
         // a 3xx head with Location only under schedules whose windows are safe (D10 is owned by C05): everything
         // at once (mode 0); the other exchanges under all four schedule shapes
